@@ -81,7 +81,7 @@ func (p IP6) SetPayload(b []byte, nextHeader uint8) IP6 {
 }
 
 func (p IP6) AppendPayload(b []byte, nextHeader uint8) (IP6, error) {
-	if b == nil || cap(p)-len(p) < len(b) {
+	if cap(p)-len(p) < len(b) { // an empty payload fits
 		return nil, ErrPayloadTooBig
 	}
 	p = p[:len(p)+len(b)] // change slice in case slice is less than 40
